@@ -35,11 +35,36 @@ def apply_selection_shape(ctx, rule='A5'):
     rets = guards.return_nodes(cfg)
     # classify returns
     full = []          # returns of the complete modification (not under only_added, not the no-option branch)
+    delegated = []     # returns that hand the whole modification over to an extracted helper
+    unit = unit_functions(ctx.prog, fn)
     for r in rets:
         v = r.ast.value
+        if isinstance(v, ast.Call) and isinstance(v.func, ast.Name) and any(u.name == v.func.id for u in unit[1:]):
+            delegated.append((r, next(u for u in unit[1:] if u.name == v.func.id), v))
+            continue
         if not (isinstance(v, ast.Tuple) and len(v.elts) == 3):
             raise AnalysisError(f'get_mod_apply_selection_choice: unexpected return shape {short(v)}')
         full.append(r)
+    # a helper that builds the modification for one case removes the choice node it is given, on every return
+    for r, h, call in delegated:
+        pc = None
+        for i_a, a in enumerate(call.args):
+            if isinstance(a, ast.Name) and a.id == 'choice_node' and i_a < len(h.params):
+                pc = h.params[i_a]
+        for k in call.keywords:
+            if isinstance(k.value, ast.Name) and k.value.id == 'choice_node':
+                pc = k.arg
+        hcfg = build_cfg(h)
+        hrets = [x for x in guards.return_nodes(hcfg) if isinstance(x.ast.value, ast.Tuple) and len(x.ast.value.elts) == 3]
+        hthrough = [n for n in hcfg.nodes if n.ast is not None and pc is not None and (
+            any(isinstance(c, ast.Call) and call_name(c) == 'add' and c.args and norm(c.args[0]) == pc
+                for c in ast.walk(n.ast)) or
+            any(isinstance(e, ast.Set) and any(norm(x) == pc for x in e.elts) for e in ast.walk(n.ast)))]
+        if not hrets:
+            raise AnalysisError(f'{h.qualname}: returned modification not found')
+        guards.check_passes(ctx, rule, h, hrets, hthrough, 'choice-node-removed',
+                            'every modification returned for an applied selection choice has put the choice node '
+                            'into the removed-node set (no choice node survives its own application)')
     # (a) every return hands out a removed-node set containing the choice node, except the only_added one
     def adds_choice(sub):
         if isinstance(sub, ast.Call) and call_name(sub) == 'add' and sub.args and \
@@ -59,7 +84,7 @@ def apply_selection_shape(ctx, rule='A5'):
         if any(r.id == dst for (_, dst, _) in only_added_edges):
             continue
         sinks.append(r)
-    if len(sinks) < 2:
+    if len(sinks) + len(delegated) < 2:
         raise AnalysisError('get_mod_apply_selection_choice: expected a no-option return and a full return')
     guards.check_passes(ctx, rule, fn, sinks, through, 'choice-node-removed',
                         'every modification returned for an applied selection choice has put the choice node '
